@@ -455,21 +455,25 @@ func (g *Gen) genC16(n int) error {
 			g.emit("vrefs %s", seg)
 		}
 		if i%4 == 2 {
-			// first opens of an uncached field by several goroutines at once, every other one filtering
-			g.emit("vtick %s", seg)
-			g.emit("vtick %s", seg)
-			hp := g.fresh("h")
+			// first opens of an uncached field by several goroutines at once, every other one filtering:
+			// a freshly opened segment (empty cache) per round; nothing may be left alive afterwards
+			f2 := g.fresh("f")
+			g.emit("persist %s %s", s, f2)
 			fn := g.pick([]string{"vecA", "vecB"})
-			g.emit("par %d rounds=1 ordered=1", 4+g.r.Intn(5))
-			g.emit("vopen %s %s %s filt=g ex=nil", hp, seg, fn)
-			g.emit("vsearch %s q=%s k=%d", hp, g.randQuery(2), nd*3)
-			g.emit("vsearch %s q=%s k=2", hp, g.randQuery(2))
-			g.emit("vclose %s", hp)
-			g.emit("endpar")
-			g.emit("vrefs %s", seg)
-			g.emit("vtick %s", seg)
-			g.emit("vtick %s", seg)
-			g.emit("vcounters")
+			for r := 0; r < g.tierN(12, 40); r++ {
+				o2 := g.fresh("o")
+				g.emit("open %s %s", o2, f2)
+				g.alias(o2, s)
+				hp := g.fresh("h")
+				g.emit("par %d rounds=1 ordered=1", 4+g.r.Intn(5))
+				g.emit("vopen %s %s %s filt=g ex=nil", hp, o2, fn)
+				g.emit("vsearch %s q=%s k=%d", hp, g.randQuery(2), nd*3)
+				g.emit("vclose %s", hp)
+				g.emit("endpar")
+				g.emit("vrefs %s", o2)
+				g.emit("close %s", o2)
+				g.emit("vcounters")
+			}
 		}
 		nev := 3 + g.r.Intn(maxEv)
 		for e := 0; e < nev; e++ {
